@@ -83,8 +83,15 @@ def join_parts(t) -> Optional[List[str]]:
     return None
 
 
+def _inline(f: FuncInfo) -> bool:
+    """helpers are looked through; the two CSV loaders are the semantic anchors"""
+    return f.qualname not in (REMOTE_LOADER, RES_LOADER)
+
+
 def analyse_loader(prog: Program, fi: FuncInfo) -> Optional[Loader]:
-    ev = Evaluator(prog, inline=lambda f: False, opaque_kind=REPO_RESULT_KIND)
+    if fi.qualname in (REMOTE_LOADER, RES_LOADER):
+        return None
+    ev = Evaluator(prog, inline=_inline, opaque_kind=REPO_RESULT_KIND)
     a = fi.node.args
     star = Term('param', (Const('**' + a.kwarg.arg),), kind='dict') if a.kwarg else None
     args = {p: Term('param', (Const(p),)) for p in fi.params()}
@@ -155,7 +162,7 @@ def lookup_namespace(prog: Program, modname: str) -> Dict[str, FuncInfo]:
 def lookup_of(prog: Program, name: str):
     """evaluate load_dataset symbolically for one literal name: (module looked into, attribute name, events)"""
     fi = prog.func(BASE + '.load_dataset')
-    ev = Evaluator(prog, inline=lambda f: False, opaque_kind=REPO_RESULT_KIND)
+    ev = Evaluator(prog, inline=_inline, opaque_kind=REPO_RESULT_KIND)
     params = fi.params()
     args = {params[0]: Const(name)}
     for p in params[1:]:
@@ -170,6 +177,14 @@ def lookup_of(prog: Program, name: str):
         if len(pos) >= 2 and isinstance(pos[0], Term) and pos[0].head == 'module' and const_str(pos[1]) is not None:
             targets.add((pos[0].args[0].v, const_str(pos[1])))
     return targets, ev, res
+
+
+def unknown_name_outcome(prog: Program, name: str = 'no-such-dataset-0'):
+    """evaluate load_dataset on a name bound nowhere: (raised exception names, did it return?)"""
+    targets, ev, res = lookup_of(prog, name)
+    raises = [e.data.get('exc') for e in ev.events if e.kind == 'raise']
+    returns = [e for e in ev.events if e.kind == 'return' and e.func is prog.func(BASE + '.load_dataset')]
+    return raises, bool(returns), ev
 
 
 def package_data_globs(prog: Program) -> Dict[str, List[str]]:
